@@ -569,7 +569,19 @@ def W_fitter(rep, flow: Flow, want=("W3", "W4", "W5", "W6", "W7", "S1")):
         ea = _strip_wrappers(ecall[2].args[1]) if len(ecall[2].args) > 1 else None
         okz = isinstance(za, ast.Name) and za.id == lv
         oke = isinstance(ea, ast.Name) and ea.id == lv
-        if okz and oke:
+        # the other arguments: the Z mask is built for the measured width (a .num_qubits), the estimator reads the parsed counts
+        zw = zcall[2].args[0] if zcall[2].args else None
+        zsrc = [a.value for a in _assigned(f.node, zw.id)] if isinstance(zw, ast.Name) else ([zw] if zw is not None else [])
+        okw = any(isinstance(x, ast.Attribute) and x.attr == "num_qubits" for sv in zsrc for x in ast.walk(sv)) or any(isinstance(sv, ast.Call) and isinstance(sv.func, ast.Name) and sv.func.id == "len" for sv in zsrc)
+        ew = ecall[2].args[0] if ecall[2].args else None
+        esrc = [a.value for a in _assigned(f.node, ew.id)] if isinstance(ew, ast.Name) else ([ew] if ew is not None else [])
+        parser_cls = A_COUNTS_PARSER.split(".")[1]
+        okc = any(isinstance(sv, ast.Call) and isinstance(sv.func, ast.Name) and sv.func.id == parser_cls for sv in esrc)
+        if okz and oke and not okw:
+            rep.finding("W5", f"{A_FITTER}:width", f"{pyfacts.where(f, zcall[2])}: the Z-mask constructor is given `{ast.unparse(zw) if zw is not None else '?'}` as number of qubits; it must be the width of the readout circuit [{pyfacts.norm_stmt(zcall[2])}]")
+        elif okz and oke and not okc:
+            rep.finding("W5", f"{A_FITTER}:estimator-input", f"{pyfacts.where(f, ecall[2])}: the estimator is given `{ast.unparse(ew) if ew is not None else '?'}`, which is not the parsed counts ({parser_cls}(...)) [{pyfacts.norm_stmt(ecall[2])}]")
+        elif okz and oke:
             rep.ok("W5", 1, nontrivial="mask", sample=f"{zname}(.., {lv}) and {ename}(.., {lv})")
         else:
             rep.finding("W5", f"{A_FITTER}:mask", f"{pyfacts.where(f, ecall[2])}: the Z-mask constructor gets `{ast.unparse(zcall[2].args[1]) if len(zcall[2].args)>1 else '?'}` but the estimator gets `{ast.unparse(ecall[2].args[1]) if len(ecall[2].args)>1 else '?'}`; both must be the loop value `{lv}`")
@@ -658,6 +670,33 @@ def W_fitter(rep, flow: Flow, want=("W3", "W4", "W5", "W6", "W7", "S1")):
             rep.ok("W6", 1, nontrivial="identity", sample=f"identity entry: {pyfacts.norm_stmt(ident) if ident is not None else 'mask 0 is in the loop domain'}")
         else:
             rep.finding("W6", f"{A_FITTER}:identity", f"{f.module.rel} {f.qualname}: no identity entry (Pauli('I'*n) -> 1.0) is stored before the first return and mask 0 is not in the loop domain: 2^n-1 entries instead of 2^n")
+
+
+def W14_returns(rep, flow: Flow):
+    """the fitter family hands its result out on every path: no `return None` / bare return in a function whose
+    annotation promises a dictionary or a matrix"""
+    rep.rule("W14", "every fitter function that is annotated to return a dictionary / matrix returns a value on each of its return statements (no bare `return`, no `return None`)", floor=4)
+    m = flow.prog.modules.get(TOMO)
+    if m is None:
+        raise AnalysisError("module tomography vanished")
+    for f in m.all_funcs:
+        ann = ast.unparse(f.node.returns) if f.node.returns is not None else ""
+        if not any(k in ann for k in ("Dict", "dict", "ndarray", "List", "QuantumCircuit", "Pauli")) or "Optional" in ann or "None" in ann:
+            continue
+        own = []
+        todo = list(f.node.body)
+        while todo:
+            n = todo.pop()
+            if isinstance(n, (ast.FunctionDef, ast.AsyncFunctionDef, ast.Lambda, ast.ClassDef)):
+                continue
+            if isinstance(n, ast.Return):
+                own.append(n)
+            todo.extend(ast.iter_child_nodes(n))
+        bad = [r for r in own if r.value is None or (isinstance(r.value, ast.Constant) and r.value.value is None)]
+        if bad:
+            rep.finding("W14", f"{f.fq}:return-none", f"{pyfacts.where(f, bad[0])}: {f.qualname} is annotated `-> {ann}` but returns None here: the computed result is lost [{pyfacts.norm_stmt(bad[0])}]")
+        elif own:
+            rep.ok("W14", 1, nontrivial=f.fq, sample=f"{f.qualname} -> {ann}: {len(own)} return statement(s), all with a value")
 
 
 def W3_indexing(rep, flow: Flow):
@@ -999,6 +1038,16 @@ def W11_fitter_uses_list(rep, flow: Flow):
             asg = _assigned(f.node, arg.id)
             src = asg[-1].value if len(asg) == 1 else None
         okk = isinstance(src, ast.Attribute) and src.attr in rec_fields and "readout_info" in ast.unparse(src)
+        # the other argument: the counts of this circuit, i.e. a value that comes out of get_counts()
+        others = [v for k, v in b.items() if k != lp]
+        if others:
+            cnt = others[0]
+            csrcs = [cnt]
+            if isinstance(cnt, ast.Name):
+                csrcs = [a.value for a in _assigned(f.node, cnt.id)]
+            if not any(isinstance(x, ast.Call) and isinstance(x.func, ast.Attribute) and x.func.attr == "get_counts" for sv in csrcs for x in ast.walk(sv)):
+                rep.finding("W11", f"{A_FITTER}:parser-counts", f"{pyfacts.where(f, c)}: the counts parser is given `{ast.unparse(cnt)}`, which does not come from get_counts(): the fitter does not evaluate the measured counts [{pyfacts.norm_stmt(c)}]")
+                continue
         if okk:
             rep.ok("W11", 1, nontrivial=pyfacts.norm_stmt(c), sample=f"{pyfacts.norm_stmt(c)} with {ast.unparse(arg)} = {ast.unparse(src)}")
         else:
